@@ -14,7 +14,12 @@ RecordClauses(e) ==
       tr == e.case.tril
       rej == Rejected(t, recs, ob)
   IN
-  IF rej THEN << <<"outOfChromRejected", e.obs.err # "">> >>
+  IF rej THEN
+     \* the clause is named after the input class so that the open known finding F3 (text / API loaders accept a
+     \* position equal to the chromosome length) is matched exactly and any OTHER acceptance is reported
+     IF KnownFinding_F3(t, recs, ob) /\ e.drv # "ig.tabix"
+       THEN << <<"outOfChromRejected:positionEqualsLength", e.obs.err # "">> >>
+       ELSE << <<"outOfChromRejected", e.obs.err # "">> >>
   ELSE
   << <<"validAccepted", e.obs.err = "">>,
      <<"eachRecordOnceInRightPixel", e.obs.err # "" \/ e.obs.px = Binned(t, recs, ob, tr)>>,
